@@ -464,6 +464,7 @@ def shortfall_refused(ctx):
 @PROP.obligation('C07.explicit-distinct', canaries=[
     mut.replace_expr(W, 'Wallet.transaction_create', 'outpoint in outpoints', 'False', 'repeated outpoint no longer refused'),
     mut.drop_stmt(W, 'Wallet.transaction_create', 'outpoints.append(outpoint)', 'outpoints seen are not remembered'),
+    mut.replace_expr(W, 'Wallet.transaction_create', 'to_bytes(prev_txid)', 'prev_txid', 'outpoints compared as the caller spelled them', nth=0),
 ])
 def explicit_distinct(ctx):
     """Explicit inputs (input_arr) are distinct outpoints: inside the loop that turns input_arr into transaction inputs a raise is guarded
@@ -499,6 +500,36 @@ def explicit_distinct(ctx):
                 if (isinstance(coll, ast.Name) and coll.id in grown) or 'transaction.inputs' in norm(coll):
                     ok.append(n)
     ctx.saw('collections the loop extends with accepted outpoints: %s; refusals of a repeated outpoint: %s' % (sorted(grown), [norm(n.test)[:60] for n in ok]))
+    # the txid of an explicit input may be written as hex text or as bytes (the loop itself normalises it with to_bytes(...) for the
+    # database lookup): the key that is compared must be built from the NORMALISED value, or two spellings of one outpoint are distinct
+    normalised_elsewhere = [c for c in ast.walk(loop) if isinstance(c, ast.Call) and norm(c.func) in ('to_bytes', 'to_hexstring', 'bytes.fromhex') and c.args and norm(c.args[0]) == 'prev_txid']
+    rebound = any(isinstance(a, ast.Assign) and any(norm(t) == 'prev_txid' for t in a.targets) and isinstance(a.value, ast.Call) and norm(a.value.func) in ('to_bytes', 'to_hexstring')
+                  for a in loop.body)
+    for n in ok:
+        for cmp_ in ast.walk(n.test):
+            if not (isinstance(cmp_, ast.Compare) and isinstance(cmp_.ops[0], ast.In)):
+                continue
+            keys_ = [cmp_.left]
+            if isinstance(cmp_.left, ast.Name):
+                keys_ = [a.value for a in ast.walk(loop) if isinstance(a, ast.Assign) and any(isinstance(t, ast.Name) and t.id == cmp_.left.id for t in a.targets)]
+            for k in keys_:
+                parents = {}
+                for par in ast.walk(k):
+                    for ch in ast.iter_child_nodes(par):
+                        parents[ch] = par
+                for x in ast.walk(k):
+                    if isinstance(x, ast.Name) and x.id == 'prev_txid':
+                        cur, wrapped = x, False
+                        while cur in parents:
+                            cur = parents[cur]
+                            if isinstance(cur, ast.Call):
+                                wrapped = True
+                                break
+                        ctx.saw('key of the repeated-outpoint test: `%s`; prev_txid normalised inside it: %s' % (norm(k)[:70], wrapped or rebound))
+                        if normalised_elsewhere and not wrapped and not rebound:
+                            ctx.violate(q, 'the repeated-outpoint test compares `%s`, built from prev_txid AS WRITTEN by the caller, while the same loop normalises it (`%s`) before using it' % (
+                                norm(k)[:60], norm(normalised_elsewhere[0])), k,
+                                "input_arr=[('ab12..', 0, ...), (bytes.fromhex('ab12..'), 0, ...)] - or an Input object from select_inputs() next to a (txid_hex, n) tuple - passes the test: the same output is spent and counted twice")
     if not ok:
         # the alternative idiom: one test over the whole list before the loop
         pre = [n for n in ast.walk(fn) if isinstance(n, ast.If) and any(isinstance(x, ast.Raise) for x in n.body) and 'input_arr' in norm(n.test) and 'set(' in norm(n.test) and 'len(' in norm(n.test)]
